@@ -278,6 +278,74 @@ fn solve_case(ctx: &mut Ctx, idx: u64, rng: &mut Rng, quick: bool) {
             }
         }
     }
+    // (f) independence. Serial: the outcome of a chance infoset in one pass says nothing about
+    // the next pass in which it is drawn, so the number of repeats among consecutive draws is
+    // n x sum p_j^2 up to the Hoeffding radius (repeats of disjoint pairs are independent
+    // Bernoulli variables; the even and the odd pairs are tested separately). Cross: two chance
+    // infosets that are BOTH drawn in every pass are drawn independently, so the count of the
+    // joint outcome (0,0) is n x p_0 x q_0 up to the radius.
+    let mut by_infoset: HashMap<usize, (Vec<f64>, Vec<(u64, usize)>)> = HashMap::new();
+    let mut passes_total = 0u64;
+    for e in &out.events {
+        match e {
+            Event::Draw { who, infoset, pass, weights, result, .. } if *who == 2 => {
+                by_infoset.entry(*infoset).or_insert_with(|| (weights.clone(), Vec::new())).1.push((*pass, *result));
+            }
+            Event::Pass { pass, .. } => passes_total = passes_total.max(*pass),
+            _ => {}
+        }
+    }
+    let mut always: Vec<usize> = Vec::new();
+    for (ci, (w, seq)) in by_infoset.iter_mut() {
+        seq.sort();
+        if seq.len() as u64 == passes_total && w.len() >= 2 {
+            always.push(*ci);
+        }
+        let p2: f64 = w.iter().map(|p| p * p).sum();
+        for parity in 0..2usize {
+            let pairs: Vec<bool> = seq.windows(2).enumerate().filter(|(k, _)| k % 2 == parity).map(|(_, x)| x[0].1 == x[1].1).collect();
+            let n = pairs.len() as f64;
+            if n < 50.0 {
+                continue;
+            }
+            let reps = pairs.iter().filter(|b| **b).count() as f64;
+            let r = radius(n);
+            tests += 1;
+            ctx.max("max_serial_repeat_deviation_over_radius", (reps - n * p2).abs() / r);
+            if (reps - n * p2).abs() > r {
+                ctx.violation(
+                    idx,
+                    &format!("C10:independence:serial:{}", gen::method_name(method)),
+                    &format!("chance infoset {}: {} of {} consecutive draws repeated the previous outcome, independent draws from {:?} give {:.1} (deviation beyond the Hoeffding radius {:.1}) [{} sampling {} on {}]", ci, reps, n, w, n * p2, r, cfg.describe(), sname, desc),
+                    detail(),
+                );
+                return;
+            }
+        }
+    }
+    always.sort();
+    for pair in always.windows(2).take(6) {
+        let (a, b) = (&by_infoset[&pair[0]], &by_infoset[&pair[1]]);
+        let n = a.1.len() as f64;
+        if n < 50.0 {
+            continue;
+        }
+        let joint = a.1.iter().zip(b.1.iter()).filter(|(x, y)| x.1 == 0 && y.1 == 0).count() as f64;
+        let want = n * a.0[0] * b.0[0];
+        let r = radius(n);
+        tests += 1;
+        ctx.max("max_cross_infoset_joint_deviation_over_radius", (joint - want).abs() / r);
+        if (joint - want).abs() > r {
+            ctx.violation(
+                idx,
+                &format!("C10:independence:cross-infoset:{}", gen::method_name(method)),
+                &format!("chance infosets {} and {} are both drawn in every pass; outcome (0,0) occurred {} times in {} passes, independent draws give {:.1} (radius {:.1}) [{} sampling {} on {}]", pair[0], pair[1], joint, n, want, r, cfg.describe(), sname, desc),
+                detail(),
+            );
+            return;
+        }
+        ctx.count("cross_infoset_independence_tests", 1);
+    }
     ctx.count("frequency_tests", tests);
     ctx.count(&format!("method:{}", gen::method_name(method)), 1);
     ctx.count(if production { "sampling:production" } else { "sampling:seeded" }, 1);
@@ -301,7 +369,7 @@ pub fn run(ctx: &mut Ctx) {
         }
     });
     ctx.finish(crate::report::extra(
-        "cases = (0) the cached chance sampler (alias table) drawn 2e5 (thorough 2e6) times afresh from a seeded generator (hook chance_sampler_counts) for random weight vectors of length 2-8: every outcome count within the Hoeffding radius of draws x probability (resolves biases of ~1 % of the total mass; thorough 0.3 %). (1) sampler queries: probability vectors of length 1-8 with dyadic entries (exact cumulative sums, zeros included) x uniform variates k*2^-53 placed at every cumulative boundary +-{1,2,2^13,2^30,2^43} units and at random; the production categorical sampler (via hook multinomial_index with an RNG that yields exactly that variate) must return j whenever the variate lies strictly inside the j-th cumulative interval; with dyadic probabilities both sides compute exactly, so only a variate exactly on a boundary is don't-care. (2) logged solves of 300-4000 iterations on Kuhn, Leduc-like, rare-chance and G1 games with shared chance infosets, all methods, threads {1,3}, plus (a quarter of the runs) G1 games of 80-300 nodes with up to dozens of chance infosets under threads {2,3,4,8} for 30-300 iterations, production or seeded randomness: per pass the O3 step checker enforces at most one draw per (site, infoset, pass), draws only where the method allows (none in Full, no player draws in Sampled, only the non-updating player in External), presented weights = declared normalised chance weights resp. the player's current strategy, draws only for infosets the sampled traversal reaches, and visits (H4) exactly on the tree the draws select; over the run the outcome counts per chance infoset stay within the Hoeffding radius sqrt(n ln(2e12)/2) of n*p and the player-site martingales within the Azuma radius. distinct = hash(probabilities, variate) resp. hash(tree, configuration, seed); non-trivial = more than one outcome resp. at least one sampling site.",
+        "cases = (0) the cached chance sampler (alias table) drawn 2e5 (thorough 2e6) times afresh from a seeded generator (hook chance_sampler_counts) for random weight vectors of length 2-8: every outcome count within the Hoeffding radius of draws x probability (resolves biases of ~1 % of the total mass; thorough 0.3 %). (1) sampler queries: probability vectors of length 1-8 with dyadic entries (exact cumulative sums, zeros included) x uniform variates k*2^-53 placed at every cumulative boundary +-{1,2,2^13,2^30,2^43} units and at random; the production categorical sampler (via hook multinomial_index with an RNG that yields exactly that variate) must return j whenever the variate lies strictly inside the j-th cumulative interval; with dyadic probabilities both sides compute exactly, so only a variate exactly on a boundary is don't-care. (2) logged solves of 300-4000 iterations on Kuhn, Leduc-like, rare-chance and G1 games with shared chance infosets, all methods, threads {1,3}, plus (a quarter of the runs) G1 games of 80-300 nodes with up to dozens of chance infosets under threads {2,3,4,8} for 30-300 iterations, production or seeded randomness: per pass the O3 step checker enforces at most one draw per (site, infoset, pass), draws only where the method allows (none in Full, no player draws in Sampled, only the non-updating player in External), presented weights = declared normalised chance weights resp. the player's current strategy, draws only for infosets the sampled traversal reaches, and visits (H4) exactly on the tree the draws select; over the run the outcome counts per chance infoset stay within the Hoeffding radius sqrt(n ln(2e12)/2) of n*p and the player-site martingales within the Azuma radius; draws are also tested for independence: repeats among consecutive draws of one chance infoset vs n x sum p^2, and the joint outcome (0,0) of two chance infosets that are both drawn in every pass vs n x p x q. distinct = hash(probabilities, variate) resp. hash(tree, configuration, seed); non-trivial = more than one outcome resp. at least one sampling site.",
         &["frequency tests have false-alarm probability 1e-12 each", "seeded mode feeds the production samplers from a SplitMix64 stream keyed per (seed, site, infoset, pass)"],
     ));
 }
